@@ -251,13 +251,14 @@ def d2(ctx):
     writers = _attr_writers(ctx, cone, "lam")
     sub = ctx.need(f"{AL}:solve_sub_step")
     allowed_ctor = {f"{CO}:ConstrainedObjective.__init__"}
+    helpers = {}        # other functions of the cone that assign `.lam`: a call to one of them from the driver counts as a write there
     for (s, st) in writers:
         if s is sub or s is sc:
             continue
         if s.qualname in allowed_ctor:
             ctx.proved(rule, s, st, construct="writer:constructor", detail="initial multipliers are set by the constructor (caller-supplied)")
             continue
-        ctx.undecided(rule, s, st, construct=f"writer:{s.qualname}", detail="unknown writer of `.lam` inside the solve cone")
+        helpers.setdefault(s, []).append(st)
     # solve_sub_step: every return sees a lam written as maximum(., 0)
     scfg = cfg_of(sub)
     sobj = sub.params()[0]
@@ -292,6 +293,16 @@ def d2(ctx):
                     removed.append((c, m, lab))
     dw = [n for n in cfg.nodes if n.kind == "stmt" and isinstance(n.ast, (ast.Assign, ast.AugAssign)) and
           any(c == f"{obj}.lam" for (c, w) in cfg.defs_of(n))]
+    from .common import find_calls_to
+    for h, sts in helpers.items():
+        sites = find_calls_to(sc, ctx, h.qualname)
+        nodes = [n for n in cfg.nodes if n.ast is not None and n.kind in ("stmt", "cond") and any(x is c_ for c_ in sites for x in ast.walk(n.ast))]
+        if not nodes:
+            for st in sts:
+                ctx.undecided(rule, h, st, construct=f"writer:{h.qualname}", detail="writer of `.lam` inside the solve cone that the driver does not call directly")
+            continue
+        ctx.touch(h)
+        dw += [n for n in nodes if n not in dw]
     reach = cfg.reachable_entry()
     targets = [loop] + [r for r in cfg.returns() if id(r) in reach]
     for w in dw:
@@ -309,15 +320,25 @@ def d2(ctx):
                    bad_detail=f"after `{src(w.ast)}` the next outer iteration or the return can be reached without solve_sub_step: "
                               f"possibly negative multipliers survive the iteration")
     # line search restores the saved multipliers on failure
-    saves = [n for n in cfg.nodes if n.kind == "stmt" and isinstance(n.ast, ast.Assign) and isinstance(n.ast.value, ast.Call)
-             and same(n.ast.value, f"np.array({obj}.lam)")]
-    for w in dw:
-        v = w.ast.value if isinstance(w.ast, ast.Assign) else None
-        if isinstance(v, ast.Name):
-            ok = any(isinstance(s.ast.targets[0], ast.Name) and s.ast.targets[0].id == v.id and cfg.dominates(s, w) for s in saves)
-            ctx.decide(rule, ok, sc, w.ast, construct="line-search-restores-saved-multipliers",
-                       detail=f"restored from a copy saved before the line search",
-                       bad_detail=f"`{src(w.ast)}` does not restore a copy of the multipliers saved before the line search")
+    for fn in [sc] + list(helpers):
+        fcfg = cfg if fn is sc else cfg_of(fn)
+        fobj = None
+        fw = []
+        for n in fcfg.nodes:
+            if n.kind == "stmt" and isinstance(n.ast, (ast.Assign, ast.AugAssign)):
+                for (c, w_) in fcfg.defs_of(n):
+                    if c.endswith(".lam") and c.count(".") == 1:
+                        fw.append((n, c.split(".")[0]))
+        for (w, o_) in fw:
+            saves = [n for n in fcfg.nodes if n.kind == "stmt" and isinstance(n.ast, ast.Assign) and isinstance(n.ast.value, ast.Call)
+                     and (same(n.ast.value, f"np.array({o_}.lam)") or same(n.ast.value, f"{o_}.lam.copy()") or same(n.ast.value, f"np.copy({o_}.lam)")
+                          or same(n.ast.value, f"onp.array({o_}.lam)"))]
+            v = w.ast.value if isinstance(w.ast, ast.Assign) else None
+            if isinstance(v, ast.Name):
+                ok = any(isinstance(s_.ast.targets[0], ast.Name) and s_.ast.targets[0].id == v.id and fcfg.dominates(s_, w) for s_ in saves)
+                ctx.decide(rule, ok, fn, w.ast, construct="line-search-restores-saved-multipliers",
+                           detail=f"restored from a copy saved before the line search",
+                           bad_detail=f"`{src(w.ast)}` does not restore a copy of the multipliers saved before the line search")
 
 
 # ------------------------------------------------------------------ D3
